@@ -325,6 +325,17 @@ pub fn family(name: &str, tier: Tier) -> Vec<Case> {
             s.expect_amp_block = true;
             s.tasks = vec![echo_task(3000, 0)];
             add(s, if quick { 0 } else { 1 });
+            // the idle timer restarts when an endpoint sends its first ack-eliciting packet after a silence
+            // (RFC 9000 10.1): an application that pauses for almost the whole idle timeout and then writes
+            // again must survive a short outage of the return direction around the old deadline (an outage
+            // of the forward direction lets the peer, which has heard nothing for the whole period, time
+            // out legitimately)
+            let mut s = Scenario::base("live/pause-near-idle-then-write");
+            s.client.idle_ms = Some(3000);
+            s.server.idle_ms = Some(3000);
+            s.tasks = vec![vec![Op::OpenBidi, Op::Write(200, 0), Op::Sleep(2700), Op::Write(200, 0), Op::Finish, Op::AwaitReader]];
+            s.horizon_ms = 60_000;
+            out.push(Case { scn: s, menu: vec![Action::Drop], k: 1, extra: vec![Action::BlackholeFor(1, 600)], expect: Expect::Complete, injects: vec![], differential: false, first_index: 0, adv: None, last_index: u32::MAX });
             // L2: the network never recovers: blackhole from every datagram index on
             for (name, idle, tls, cert, retry) in [
                 ("live/blackhole-idle-3s", 3000u64, Tls::Null, Cert::Stock, Retry::Off),
